@@ -13,7 +13,9 @@ theorem C16_always_accepted (P : Params) (s : St) (t : Tid) (h : mayCall s t = t
     (step P s (.callClose t)).isSome = true :=
   close_accepted P s t h
 
-/-- once some close() has begun, the disconnect callback is cleared for good -/
+/-- once some close() that found the connection published (`_protocol` assigned) has begun, the disconnect
+    callback is cleared for good.  (`closeStarted` is set by the clearing step `c0`; a close() entered while
+    `connect()` has not completed skips that step, sets `closeUnpub` instead and is covered by Props/C17x.) -/
 theorem C16_callback_cleared (P : Params) (s : St) (h : Reachable P s) (hc : s.closeStarted = true) :
     s.discCbSet = false :=
   close_clears_callback P s h hc
